@@ -15,8 +15,18 @@ def genOptsLayout (version : Nat) : G (List SField × List SField) := do
   let scopes ← listOf (← range 0 1) (do pure (⟨1, 4, none⟩ : SField))
   -- option fields: a subset of the three sampling elements plus unrelated ones, in random order
   let ids ← pick [[305], [50], [34], [34, 50], [50, 305], [34, 305], [1005, 34], [50, 1006, 305], [1007]]
-  let fs : List SField := ids.map fun id => ⟨id, 4, none⟩
-  let _ := version
+  let fs0 : List SField := ids.map fun id => ⟨id, 4, none⟩
+  -- unrelated elements of other widths around the sampling element: a variable-length one (IPFIX: samplerName 84,
+  -- interfaceName 82), short and long fixed ones
+  let mut fs := fs0
+  if version = 10 ∧ (← chance 1 2) then
+    let pos ← below (fs.length + 1)
+    let id ← pick [84, 82, 1010]
+    fs := fs.take pos ++ [⟨id, 0xffff, none⟩] ++ fs.drop pos
+  if (← chance 1 3) then
+    let pos ← below (fs.length + 1)
+    let len ← pick [1, 2, 3, 6, 8, 16]
+    fs := fs.take pos ++ [⟨1011, len, none⟩] ++ fs.drop pos
   pure (scopes, fs)
 
 /-- rate announced by an options record: 305, then 50, then 34 -/
